@@ -21,6 +21,34 @@ class Infra(Exception):
     """infrastructure failure: exit 2, never a violation"""
 
 
+class CodePanic(Exception):
+    """the code under test (a bifrost package, not the harness) panicked inside a driver: observed real behaviour"""
+
+    def __init__(self, where, text):
+        Exception.__init__(self, where)
+        self.where, self.text = where, text
+
+
+def real_code_panic(stderr):
+    """first frame of the panicking goroutine that is not the Go runtime; returns it if it belongs to bifrost itself"""
+    i = stderr.find("panic:")
+    if i < 0:
+        return None
+    j = stderr.find("[running]:", i)
+    if j < 0:
+        return None
+    for line in stderr[j:].splitlines()[1:]:
+        line = line.strip()
+        if not line or line.startswith("/") or line.startswith("panic(") or line.startswith("runtime.") or line.startswith("created by") or line.startswith("goroutine "):
+            if line.startswith("goroutine ") or line.startswith("created by"):
+                break
+            continue
+        if line.startswith("github.com/aperturerobotics/bifrost/"):
+            return line.split("(")[0]
+        return None
+    return None
+
+
 def log(*a):
     print(*a, flush=True)
 
@@ -231,6 +259,9 @@ class Ctx:
         except subprocess.TimeoutExpired:
             raise Infra("driver %s timed out after %ss" % (driver, timeout))
         if p.returncode != 0:
+            where = real_code_panic(p.stderr)
+            if where:
+                raise CodePanic(where, p.stderr[p.stderr.find("panic:"):][:1500])
             raise Infra("driver %s crashed (rc=%d)\nstdout: %s\nstderr: %s" % (driver, p.returncode, p.stdout[-2000:], p.stderr[-4000:]))
         return p.stdout
 
